@@ -103,6 +103,7 @@ type l2Registry struct {
 	objType  map[string]types.Type
 	locKind  map[string]string          // cell | map | mutex | chan
 	prot     map[string]map[string]bool // location -> mutexes held at every access seen so far (nil: none seen)
+	writers  map[string]map[int]bool    // location -> threads that write it
 	noFuse   bool
 	changed  bool
 	changes  []string
@@ -111,7 +112,7 @@ type l2Registry struct {
 func newRegistry() *l2Registry {
 	return &l2Registry{mutable: map[string]bool{}, shapes: map[string][]*Shape{}, shapeIdx: map[string]map[string]int{},
 		mapKeys: map[string][]mapKeyRec{}, mapKeyIx: map[string]map[string]int{}, objType: map[string]types.Type{}, locKind: map[string]string{},
-		prot: map[string]map[string]bool{}}
+		prot: map[string]map[string]bool{}, writers: map[string]map[int]bool{}}
 }
 
 func (r *l2Registry) note(what string) {
@@ -149,6 +150,43 @@ func (r *l2Registry) addMapKey(m string, key string, v Value) int {
 	r.mapKeys[m] = append(r.mapKeys[m], mapKeyRec{key, v})
 	r.note("mapkey " + m + " <- " + key)
 	return len(r.mapKeys[m]) - 1
+}
+
+func (r *l2Registry) addWriter(loc string, tid int) {
+	w := r.writers[loc]
+	if w == nil {
+		w = map[int]bool{}
+		r.writers[loc] = w
+	}
+	if !w[tid] {
+		w[tid] = true
+		r.note(fmt.Sprintf("writer of %s <- T%d", loc, tid))
+	}
+}
+
+func isSelfOrDescendant(w, t int) bool {
+	for w > 0 {
+		if w == t {
+			return true
+		}
+		w /= 100
+	}
+	return false
+}
+
+// localRead: the location is written only by this thread (or by goroutines it has not started
+// yet), so the value it reads is its own last write (or the initial value): no event needed.
+func (e *Engine) localRead(loc string, c *Cell) bool {
+	ev := e.ev
+	if ev.reg.noFuse || c.Shadow || ev.cur == nil || ev.cur.nSpawned > 0 {
+		return false
+	}
+	for w := range ev.reg.writers[loc] {
+		if !isSelfOrDescendant(w, ev.cur.id) {
+			return false
+		}
+	}
+	return true
 }
 
 func (r *l2Registry) setMutable(loc, kind string) {
@@ -202,6 +240,7 @@ type threadRec struct {
 	rootKey  string
 	heldW    map[string]int
 	heldR    map[string]int
+	nSpawned int
 }
 
 func (t *threadRec) key() string {
@@ -232,6 +271,7 @@ type eventCtx struct {
 	chanByName      map[string]*ChanVal
 	children        int
 	pendingChildren []pendingChild
+	setupSnap       map[int]Value
 	setupKey        string
 	setupClasses    []classRec
 	options         map[string]bool
@@ -329,6 +369,7 @@ func (e *Engine) publishCellTree(c *Cell, name string, t types.Type) {
 		// publishing an object publishes what it points to; its current content becomes the
 		// initial content of the shared location (recorded as a store by the publishing block)
 		sh, leaves := e.flatten(c.V)
+		e.ev.reg.addWriter(name, e.ev.cur.id)
 		e.emitOp(microOp{Kind: "store", Loc: name, Shape: sh, Leaves: leaves, ShapeI: e.ev.reg.addShape(name, sh), Pos: "publish"})
 	}
 }
@@ -479,6 +520,7 @@ func (e *Engine) cellByName(name string) *Cell {
 
 func (e *Engine) markShadow(c *Cell, name string) {
 	c.Shared = &SharedInfo{Name: name}
+	c.Shadow = true
 	e.ev.byName[name] = c
 	switch v := c.V.(type) {
 	case *StructVal:
@@ -717,8 +759,10 @@ func (e *Engine) initialShape(loc string, c *Cell) {
 	}
 	e.ev.initVals[loc] = c.V
 	if c.ID <= e.ev.setupMaxCell {
-		sh, _ := e.flatten(c.V)
-		e.ev.reg.addShape(loc, sh)
+		if v, ok := e.ev.setupSnap[c.ID]; ok {
+			sh, _ := e.flatten(v)
+			e.ev.reg.addShape(loc, sh)
+		}
 	}
 }
 
@@ -730,6 +774,9 @@ func (e *Engine) evLoad(fr *frame, c *Cell) Value {
 		return e.loadAggregate(fr, c)
 	}
 	e.initialShape(loc, c)
+	if e.localRead(loc, c) {
+		return e.copyVal(c.V)
+	}
 	shapes := e.ev.reg.shapes[loc]
 	if len(shapes) == 0 {
 		panic(engineErr("event mode: load of %s with no known shape", loc))
@@ -808,7 +855,9 @@ func (e *Engine) evStore(fr *frame, c *Cell, v Value) {
 	e.initialShape(loc, c)
 	sh, leaves := e.flatten(v)
 	si := e.ev.reg.addShape(loc, sh)
+	e.ev.reg.addWriter(loc, e.ev.cur.id)
 	e.emitOp(microOp{Kind: "store", Loc: loc, Shape: sh, Leaves: leaves, ShapeI: si, Pos: e.posOf(fr)})
+	c.V = e.copyVal(v) // keep the thread's own view (used when it is the only writer)
 	e.endBlock(false)
 }
 
@@ -831,12 +880,15 @@ func (e *Engine) evAtomic(fr *frame, c *Cell, op string, v *Term) Value {
 		return ph
 	case "store":
 		sh, leaves := e.flatten(v)
+		e.ev.reg.addWriter(loc, e.ev.cur.id)
 		e.emitOp(microOp{Kind: "store", Loc: loc, Shape: sh, Leaves: leaves, ShapeI: e.ev.reg.addShape(loc, sh), Atomic: true, Pos: e.posOf(fr)})
+		c.V = v
 		return nil
 	case "add":
 		ph := e.newPlaceholder(c.V.(*Term).Sort)
 		e.emitOp(microOp{Kind: "load", Loc: loc, Leaves: []*Term{ph}, Atomic: true, Pos: e.posOf(fr)})
 		nv := e.tb.IntBin("+", i64, ph, v, e.ovf)
+		e.ev.reg.addWriter(loc, -1) // read-modify-write by anybody: never resolved locally
 		sh, leaves := e.flatten(nv)
 		e.emitOp(microOp{Kind: "store", Loc: loc, Shape: sh, Leaves: leaves, ShapeI: e.ev.reg.addShape(loc, sh), Atomic: true, Pos: e.posOf(fr)})
 		return nv
@@ -1040,6 +1092,7 @@ func (e *Engine) evGo(fr *frame, g goroutine) {
 	e.ev.children++
 	child := &threadRec{id: 100*parent.id + e.ev.children, name: "go@" + g.pos, parent: parent.id, spawnKey: fmt.Sprintf("%x", hashString(parent.key()))}
 	child.lastKey = fmt.Sprintf("T%d[%s]unspawned", child.id, child.spawnKey)
+	parent.nSpawned++
 	e.emitOp(microOp{Kind: "spawn", Child: child.id, Label: child.lastKey, Pos: g.pos})
 	e.endBlock(false)
 	e.ev.threads = append(e.ev.threads, child)
@@ -1097,8 +1150,14 @@ func (e *Engine) evIntrinsic(fr *frame, name string, args []Value) (Value, bool)
 func (e *Engine) evRunThreads(fr *frame) {
 	ev := e.ev
 	ev.setupMaxCell, ev.setupMaxMap, ev.setupMaxChan = e.cellN, e.mapN, e.chanN
+	ev.setupSnap = map[int]Value{}
 	for _, c := range e.allCells {
 		ev.setupCells[c.ID] = c
+		switch c.V.(type) {
+		case *StructVal, *ArrayVal:
+		default:
+			ev.setupSnap[c.ID] = c.V // values are immutable; the cell may be overwritten by the thread later
+		}
 	}
 	ev.setupMaps = map[int]*MapVal{}
 	for _, m := range e.allMaps {
